@@ -4,18 +4,18 @@ C32 — the cryptographic operators agree with independent implementations.
 What is *proved* here is the operator-level logic of `ClvmModel/Crypto/Ops.lean` (a transcription
 of src/more_ops.rs, bls_ops.rs, secp_ops.rs, keccak256_ops.rs, op_utils.rs, allocator.rs g1/g2):
 scalar reduction, the coinid acceptance rule, negation by bit flip, strict ⊆ relaxed, cost
-formulas.  The field / curve arithmetic (`ClvmModel/Crypto/{Field,Curve,Secp,Bls}.lean`) and
-the hash functions are the *independent implementation* the real crates are compared with by
-the `crypto` stream; no group-law theorems are claimed.
+formulas, and the relation between the implementation's pairing verdict and the mathematical
+one (finding J).  The field / curve / pairing / hash-to-curve arithmetic
+(`ClvmModel/Crypto/{Field,Curve,Secp,Bls,Pairing,HashToCurve}.lean`) and the hash functions are
+the *independent implementation* the real crates are compared with by the `crypto` streams; no
+group-law theorems are claimed.
 -/
-import ClvmModel.Crypto.Ops
+import ClvmProofs.Lemmas.Crypto
 
 namespace Clvm.Props.C32
-open Clvm Clvm.Crypto Clvm.Crypto.Ops
+open Clvm Clvm.Crypto Clvm.Crypto.Ops Clvm.Crypto.Bls
 
-theorem groupOrder_pos : (0 : Int) < (Gen.Crypto.groupOrder : Int) := by
-  unfold Gen.Crypto.groupOrder; omega
-
+/-! ### scalars -/
 /-- `mod_group_order n` lies in `[0, r)` and is congruent to `n` modulo `r`. -/
 theorem modGroupOrder_spec (n : Int) :
     0 ≤ modGroupOrder n ∧ modGroupOrder n < Gen.Crypto.groupOrder ∧
@@ -41,5 +41,145 @@ theorem flipSignBit_involutive (b : Bytes) : flipSignBit (flipSignBit b) = b := 
     simp only [flipSignBit]
     congr 1
     rw [UInt8.xor_assoc]; simp
+
+
+/-! ### strict vs RELAXED_BLS -/
+
+/-- strict ⊆ relaxed: whatever `g1_negate` returns in strict mode it returns, identically, when
+RELAXED_BLS is set (relaxed mode only skips the point validation). -/
+theorem g1_negate_relaxed_superset (fs fr maxCost : Nat) (args : Tree) (r : OpRes)
+    (hr : hasFlag fr Gen.Crypto.flagRelaxedBls = true)
+    (h : opBlsG1Negate fs maxCost args = .ok r) : opBlsG1Negate fr maxCost args = .ok r := by
+  unfold opBlsG1Negate at h ⊢
+  simp only [hr, Bool.not_true] at ⊢
+  cases hfs : hasFlag fs Gen.Crypto.flagRelaxedBls
+  · simp only [hfs, Bool.not_false] at h
+    cases hg : getArgs 1 args "g1_negate" with
+    | error e => simp [hg, bind, Except.bind] at h
+    | ok l =>
+      simp only [hg, bind, Except.bind] at h ⊢
+      match l, h with
+      | [point], h =>
+        simp only at h ⊢
+        cases ha : atomOf point "G1 atom" with
+        | error e => simp [ha] at h
+        | ok blob =>
+          simp only [ha] at h ⊢
+          by_cases hl : blob.length = 48
+          · simp only [hl, ne_eq, not_true_eq_false, if_false, if_true, pure, Except.pure] at h ⊢
+            cases hv : validateG1 blob with
+            | error e => simp [hv] at h
+            | ok u => simpa [hv] using h
+          · simp [hl, throw, throwThe, MonadExceptOf.throw] at h
+      | [], h => simp [throw, throwThe, MonadExceptOf.throw] at h
+      | _ :: _ :: _, h => simp [throw, throwThe, MonadExceptOf.throw] at h
+  · simp only [hfs, Bool.not_true] at h
+    exact h
+
+/-- strict ⊆ relaxed: whatever `g2_negate` returns in strict mode it returns, identically, when
+RELAXED_BLS is set (relaxed mode only skips the point validation). -/
+theorem g2_negate_relaxed_superset (fs fr maxCost : Nat) (args : Tree) (r : OpRes)
+    (hr : hasFlag fr Gen.Crypto.flagRelaxedBls = true)
+    (h : opBlsG2Negate fs maxCost args = .ok r) : opBlsG2Negate fr maxCost args = .ok r := by
+  unfold opBlsG2Negate at h ⊢
+  simp only [hr, Bool.not_true] at ⊢
+  cases hfs : hasFlag fs Gen.Crypto.flagRelaxedBls
+  · simp only [hfs, Bool.not_false] at h
+    cases hg : getArgs 1 args "g2_negate" with
+    | error e => simp [hg, bind, Except.bind] at h
+    | ok l =>
+      simp only [hg, bind, Except.bind] at h ⊢
+      match l, h with
+      | [point], h =>
+        simp only at h ⊢
+        cases ha : atomOf point "G2 atom" with
+        | error e => simp [ha] at h
+        | ok blob =>
+          simp only [ha] at h ⊢
+          by_cases hl : blob.length = 96
+          · simp only [hl, ne_eq, not_true_eq_false, if_false, if_true, pure, Except.pure] at h ⊢
+            cases hv : validateG2 blob with
+            | error e => simp [hv] at h
+            | ok u => simpa [hv] using h
+          · simp [hl, throw, throwThe, MonadExceptOf.throw] at h
+      | [], h => simp [throw, throwThe, MonadExceptOf.throw] at h
+      | _ :: _ :: _, h => simp [throw, throwThe, MonadExceptOf.throw] at h
+  · simp only [hfs, Bool.not_true] at h
+    exact h
+
+/-! ### pairing: implementation verdict vs mathematical statement (finding J) -/
+
+/-- the defect region of finding J: some pair is (P finite, Q = ∞), or the list is non-empty and
+consists of (∞,∞) pairs only -/
+def PairingDefectRegion (items : List (G1 × G2)) : Bool :=
+  items.any (fun it => it.2.isNone && it.1.isSome) ||
+  (!items.isEmpty && items.all (fun it => it.1.isNone && it.2.isNone))
+
+/-- full statement (false of the current code, see `pairing_spec_witness`): the verdict of
+`chia_bls::aggregate_pairing` as the operator uses it is the mathematical one, ∏ e(Pᵢ,Qᵢ) = 1 -/
+def PairingStatement : Prop := ∀ items : List (G1 × G2), aggregatePairing items = pairingProductIsOne items
+
+/-- outside the defect region the implementation's verdict is the mathematical one -/
+theorem pairing_spec_partial (items : List (G1 × G2)) (h : PairingDefectRegion items = false) :
+    aggregatePairing items = pairingProductIsOne items := by
+  unfold PairingDefectRegion at h
+  rw [Bool.or_eq_false_iff] at h
+  obtain ⟨hQ, hAll⟩ := h
+  cases items with
+  | nil =>
+    have : pairingProductIsOne [] = true := by
+      unfold pairingProductIsOne; simp only [List.foldl]; exact finalExpIsOne_one
+    rw [this]; rfl
+  | cons x xs =>
+    have hAll' : (x :: xs).all (fun it => it.1.isNone && it.2.isNone) = false := by
+      simpa using hAll
+    unfold aggregatePairing
+    have hne : (x :: xs).isEmpty = false := rfl
+    simp only [hne, Bool.false_eq_true, if_false]
+    -- something is kept
+    have hkept : ((x :: xs).filter (fun it => !(it.1.isNone && it.2.isNone))).isEmpty = false := by
+      rw [List.all_eq_false] at hAll'
+      obtain ⟨y, hy, hyb⟩ := hAll'
+      cases hf : (x :: xs).filter (fun it => !(it.1.isNone && it.2.isNone)) with
+      | nil =>
+        have : y ∈ (x :: xs).filter (fun it => !(it.1.isNone && it.2.isNone)) := by
+          rw [List.mem_filter]; exact ⟨hy, by cases h1 : y.1 <;> cases h2 : y.2 <;> simp_all⟩
+        rw [hf] at this; cases this
+      | cons _ _ => rfl
+    rw [hkept]
+    simp only [Bool.false_eq_true, if_false]
+    -- no batch evaluates to zero
+    have hbatch : (chunksAux (blstBatch - 1) ((x :: xs).filter (fun it => !(it.1.isNone && it.2.isNone))).length
+        ((x :: xs).filter (fun it => !(it.1.isNone && it.2.isNone)))).any batchIsZero = false := by
+      rw [List.any_eq_false]
+      intro b hb hz
+      unfold batchIsZero at hz
+      rw [Bool.and_eq_true] at hz
+      obtain ⟨_, hany⟩ := hz
+      rw [List.any_eq_true] at hany
+      obtain ⟨y, hyb, hyQ⟩ := hany
+      have hyk := mem_of_mem_chunksAux _ _ _ _ hb y hyb
+      rw [List.mem_filter] at hyk
+      obtain ⟨hyi, hyn⟩ := hyk
+      rw [List.any_eq_false] at hQ
+      have := hQ y hyi
+      cases h1 : y.1 <;> simp_all
+    rw [hbatch]
+    simp only [Bool.false_eq_true, if_false]
+    unfold pairingProductIsOne
+    rw [foldl_filter_bothInf _ _ Fp12.one_reduced]
+
+
+/-- `bls_pairing_identity (∞ ∞)` is rejected although e(∞,∞) = 1 -/
+theorem pairing_spec_witness : ¬ PairingStatement := by
+  intro h
+  have h := h [(none, none)]
+  have hs : pairingProductIsOne [(none, none)] = true := by
+    unfold pairingProductIsOne
+    simp only [List.foldl, millerPair, fp12_mul_one_one, finalExpIsOne_one]
+  rw [hs] at h
+  revert h
+  decide
+
 
 end Clvm.Props.C32
